@@ -276,7 +276,12 @@ def siblings(acc):
         if s not in py['states']:
             acc.violation('static-vs-dynamic', {'kind': 'table-entry', 'state': s, 'on': k, 'class': c}, 'state missing in parser.py text')
             continue
-        w = interpret_static(py, s, k, c)
+        try:
+            w = interpret_static(py, s, k, c)
+        except Exception as e:  # noqa: BLE001
+            acc.violation('static-table-shape', {'kind': 'table-entry', 'state': s, 'on': k, 'class': c},
+                          'parser.py no longer has the shape of the generated parsers in state %d (%s: %s): its text cannot be compared with its siblings' % (s, type(e).__name__, e))
+            continue
         acc.n += 1
         if w != v:
             acc.violation('static-vs-dynamic', {'kind': 'table-entry', 'state': s, 'on': k, 'class': c},
